@@ -14,6 +14,7 @@ import (
 	"os/exec"
 	"path/filepath"
 	"reflect"
+	"regexp"
 	"sort"
 	"strings"
 	"sync"
@@ -835,6 +836,28 @@ type parserOut struct {
 
 var stubBase = "/etc/apparmor.d"
 
+// compileWhole compiles a whole profile block (header included) over the shipped tunables.
+func compileWhole(dir, name, text string) parserOut {
+	p := filepath.Join(dir, name)
+	_ = os.WriteFile(p, []byte("abi <abi/3.0>,\ninclude <tunables/global>\n"+text+"\n"), 0o644)
+	defer os.Remove(p)
+	cmd := exec.Command("/usr/sbin/apparmor_parser", "-Q", "-K", "-S", "--kernel-features", "/etc/apparmor.d/abi/3.0", "-b", stubBase, "-I", stubBase, p)
+	var out, errb strings.Builder
+	cmd.Stdout = &out
+	cmd.Stderr = &errb
+	if err := cmd.Run(); err != nil {
+		d := ""
+		for _, l := range strings.Split(errb.String(), "\n") {
+			if strings.Contains(l, "rror") && !strings.Contains(l, "Cache") {
+				d = strings.TrimSpace(strings.ReplaceAll(l, p, "<stub>"))
+				break
+			}
+		}
+		return parserOut{false, d, ""}
+	}
+	return parserOut{true, "", sha([]byte(out.String()))}
+}
+
 func compileStub(dir, name, body string) parserOut {
 	p := filepath.Join(dir, name)
 	_ = os.WriteFile(p, []byte(stubHead+body+"\n}\n"), 0o644)
@@ -1097,6 +1120,75 @@ func checkC12(e *Env, r *Report) {
 		nLog++
 	}
 	r.Coverage["rules_from_logs"] = nLog
+	// the real aa-log binary in rules mode: every profile block it prints for a log must load, and
+	// compile to the same policy as what the library renders for the same record
+	{
+		type binRec struct {
+			prof, line, cls string
+		}
+		brecs := []binRec{}
+		add := func(cls, line, prof string) { brecs = append(brecs, binRec{prof, line, cls}) }
+		bi := 0
+		for _, cls := range []string{"file:open", "file:exec", "file:link", "file:file_mmap", "cap", "net:inet", "signal", "ptrace", "dbus", "mount", "umount", "remount", "pivotroot", "rlimits", "change_onexec"} {
+			for _, nc := range []int{1, 6, 12, 20} {
+				bi++
+				line, want, _ := renderRuleRecord(ruleTuple{cls, []string{"r", "rw", "wc"}[bi%3], []string{"ALLOWED", "DENIED", "AUDIT"}[bi%3], bi%2 == 0, nc}, 200000+bi, bi)
+				add(cls, line, str(want["profile"]))
+			}
+		}
+		// values a formatting function would misread, and records that add a profile flag
+		special := []string{
+			`apparmor="ALLOWED" operation="open" class="file" profile="PROF" name="/srv/www/report%20final.txt" pid=1 comm="c" requested_mask="r" denied_mask="r" fsuid=1000 ouid=1000`,
+			`apparmor="ALLOWED" operation="open" class="file" profile="PROF" name="/srv/100%_cotton/$HOME/$1/a" pid=1 comm="c" requested_mask="rw" denied_mask="rw" fsuid=1000 ouid=0`,
+			`apparmor="ALLOWED" operation="open" class="file" info="Failed name lookup - deleted entry" error=-2 profile="PROF" name="/srv/deleted/file" pid=1 comm="c" requested_mask="r" denied_mask="r" fsuid=1000 ouid=1000`,
+			`apparmor="ALLOWED" operation="open" class="file" info="Failed name lookup - disconnected path" error=-13 profile="PROF" name="/srv/disconnected/file" pid=1 comm="c" requested_mask="r" denied_mask="r" fsuid=1000 ouid=1000`,
+			`apparmor="ALLOWED" operation="open" class="file" info="Failed name lookup - deleted entry" error=-2 profile="PROF" name="/srv/both/file" pid=1 comm="c" requested_mask="r" denied_mask="r" fsuid=1000 ouid=1000` + "\n" + `type=AVC msg=audit(1.1:2): apparmor="ALLOWED" operation="open" class="file" info="Failed name lookup - disconnected path" error=-13 profile="PROF" name="/srv/both/other" pid=1 comm="c" requested_mask="r" denied_mask="r" fsuid=1000 ouid=1000`,
+		}
+		for i, sp := range special {
+			prof := "binspecial" + lettersOf(i+1)
+			add("special", fmt.Sprintf("type=AVC msg=audit(1.1:%d): ", 900+i)+strings.ReplaceAll(sp, "PROF", prof), prof)
+		}
+		var lb strings.Builder
+		for _, b := range brecs {
+			lb.WriteString(b.line + "\n")
+		}
+		lp := filepath.Join(e.Scratch, "bin-rules.log")
+		_ = os.WriteFile(lp, []byte(lb.String()), 0o644)
+		run := runAaLog(e, "-r", "-f", lp)
+		blocks := map[string]string{}
+		for _, blk := range regexp.MustCompile(`(?ms)^profile (\S+)[^\n]*\{\n.*?^\}`).FindAllStringSubmatch(run.Stdout, -1) {
+			blocks[blk[1]] = blk[0]
+		}
+		nBin := 0
+		for i, b := range brecs {
+			id := "bin:" + b.cls + "|" + b.prof
+			blk, ok := blocks[b.prof]
+			if run.Exit != 0 || !ok {
+				recs = append(recs, map[string]any{"ev": "meaning", "id": id, "text": tail(run.Stdout, 300), "reftext": "", "accepted": false, "diag": fmt.Sprintf("aa-log -r: exit %d, no profile block for %s", run.Exit, b.prof), "refaccepted": false, "samepolicy": false})
+				classOf[id] = "bin|" + b.cls + "|noblock"
+				continue
+			}
+			got := compileWhole(dir, fmt.Sprintf("w%d", i), blk)
+			// the library's own rendering of the same record(s)
+			var libText string
+			func() {
+				defer func() { _ = recover() }()
+				for _, p := range logs.New(strings.NewReader(b.line+"\n"), "").ParseToProfiles() {
+					p.Merge(nil)
+					p.Sort()
+					p.Format()
+					libText = p.String()
+				}
+			}()
+			want := compileWhole(dir, fmt.Sprintf("v%d", i), libText)
+			rec := map[string]any{"ev": "meaning", "id": id, "text": blk, "reftext": libText, "accepted": got.OK, "diag": got.Diag, "refaccepted": want.OK, "samepolicy": want.OK && got.OK && want.Bin == got.Bin}
+			// (the block must load whatever the library renders: header and flags are only printed here)
+			classOf[id] = "bin|" + b.cls + "|" + diagClass(got.Diag)
+			recs = append(recs, rec)
+			nBin++
+		}
+		r.Coverage["aa_log_binary_blocks_compiled"] = nBin
+	}
 	r.Coverage["programs"] = len(recs)
 	r.Coverage["disagreements_checked"] = len(recs)
 	r.Sample(recs[0])
